@@ -349,7 +349,7 @@ Ltac solve_rng :=
       first [ is_var v;
               first [ match goal with H : rng ?w v |- _ => apply (rng_weaken w W v H); side_le end
                     | let b := eval cbv delta [v] in v in change (rng W b); solve_rng ]
-            | rng_const
+            | lazymatch v with Z0 => idtac | Zpos _ => idtac | Zneg _ => idtac end; rng_const
             | rng_hook
             | let h := head_of v in unfold h; cbv beta; solve_rng ]
   end
@@ -415,13 +415,36 @@ Ltac safe_step call :=
                   let s1 := fresh "s" in generalize (set f v s0) Hn; clear Hn; intros s1 Hn ]
       end
   | |- safe ?Q (let x := ?e in @?b x) =>
-      let x' := fresh "x" in pose (x' := e); change (safe Q (b x')); cbv beta
+      let x' := fresh "x" in
+      pose (x' := e); change (safe Q (b x')); cbv beta;
+      (* a local continuation (join point): prove its specification once, under the invariant in force *)
+      lazymatch type of e with
+      | st -> res _ =>
+          lazymatch goal with
+          | H : Inv ?B _ |- _ =>
+              let Hk := fresh "Hk" in
+              assert (Hk : forall s1, Inv B s1 -> safe Q (x' s1));
+              [ let s1 := fresh "s" in let Hi := fresh "Hi" in intros s1 Hi; cbv beta delta [x']; clear x' | clearbody x' ]
+          end
+      | ?T -> st -> res _ =>
+          let n := lazymatch T with w8 => constr:(8) | w16 => constr:(16) | w32 => constr:(32) | w64 => constr:(64) end in
+          lazymatch goal with
+          | H : Inv ?B _ |- _ =>
+              let Hk := fresh "Hk" in
+              assert (Hk : forall a1 s1, rng n a1 -> Inv B s1 -> safe Q (x' a1 s1));
+              [ let a1 := fresh "a" in let s1 := fresh "s" in let Ha := fresh "Ha" in let Hi := fresh "Hi" in
+                intros a1 s1 Ha Hi; cbv beta delta [x']; clear x' | clearbody x' ]
+          end
+      | _ => idtac
+      end
   | |- safe _ (if ?c then _ else _) => case c
   | |- safe _ (Ok _ _) => cbv beta; split; [ res_goal | eassumption ]
   | |- safe _ Panic => fail 1 "symbolic execution reached Panic"
   | |- safe _ ?t =>
       let h := head_of t in
-      first [ is_var h; cbv beta delta [h]
+      first [ is_var h;
+              first [ match goal with Hk : context [h] |- _ => eapply Hk; solve_side end
+                    | cbv beta delta [h] ]
             | call tt; solve_side ]
   end
 with set_hook Q f v s0 b H := fail.
